@@ -11,7 +11,7 @@ from engine.dataflow import ReachingDefs, target_names, assigned_value
 from engine.srcmodel import walk_shallow, norm, parent, set_parents
 from engine.util import call_name, contains, get_method, in_body, fstring_template
 from ._c01_util import (bound_by_inner_scope, loads, load_ids, strip_wrappers, bounded_paths, branch_outcome,
-                        membership_facts, read_reserved, literal_pieces, alias_root, string_collection, list_shapes, LVal, Scalar, Delegate)
+                        membership_facts, read_reserved, literal_pieces, alias_root, string_collection, module_constant, list_shapes, LVal, Scalar, Delegate)
 
 PROPERTY = "C01"
 IR = "pyrates/ir/circuit.py"
@@ -1267,6 +1267,10 @@ def _elem_key(ctx, f, e: ast.AST) -> str:
             return e.id
         if r.value is not None and isinstance(r.value, ast.Constant):
             return repr(r.value.value)
+        if isinstance(r.expr, ast.Name) and r.defstmt is None and not ctx.rd(f).is_local(r.expr.id):
+            c = module_constant(ctx, f.module, r.expr.id)       # a named module-level constant (`_HIST_ARG = 'hist'`)
+            if c is not None:
+                return repr(c.value)
         return r.expr.id if isinstance(r.expr, ast.Name) else ast.unparse(r.expr)
     return ast.unparse(e)
 
